@@ -259,6 +259,22 @@ def main(inp, outp):
                    "from a returned orbit (20 x tol per nominal step + 12 mm)", e1 <= bound and e2 <= bound, "rk/tolerance-kept[rkf54]",
                    f"rkf54, 90 s, tol 1e-6, direction {sgn}, orbit {kepx[:3]}: error of the direct request {e1 * 1e3:.1f} mm, of the request split at step {n1} and "
                    f"continued from the returned orbit {e2 * 1e3:.1f} mm (allowed {bound * 1e3:.1f} mm)", {"kep": kepx, "direction": sgn})
+    # ---- the integrator may be named in any letter case (the constructor lower-cases it): 'DOPRI54' is dopri54, step control included
+    if job.get("tolerance_kept"):
+        earth = get_body("Earth")
+        kepx = [2.66e7, 0.7, 1.1, 0.3, 4.7, 0.2]
+        for low, other in (("rkf54", "RKF54"), ("dopri54", "Dopri54"), ("rk4", "RK4"), ("euler", "Euler")):
+            outs = []
+            for name in (low, other):
+                propc = KeplerNum(timedelta(seconds=120 if low != "euler" else 10), earth, method=name, tol=1e-5)
+                oc = Orbit(kepx, DATE, "keplerian", "EME2000", propc).copy(form="cartesian")
+                first = oc.propagate(DATE + timedelta(seconds=2400))
+                outs.append(np.asarray(first.propagate(DATE + timedelta(seconds=6000)), float))
+            dd = float(np.linalg.norm(outs[0][:3] - outs[1][:3]))
+            res["evaluations"] += 1
+            clause("the integrator named in another letter case is the same integrator (identical result, step control included)", dd <= 1e-9,
+                   f"rk/method-spelling[{low}]", f"method='{other}' differs from method='{low}' by {dd:.4g} m (120 s steps, tol 1e-5, eccentric orbit through perigee)",
+                   {"kep": kepx, "spellings": [low, other]})
     res["nontrivial"] = sorted(set(res["nontrivial"]))[:300]
     with open(outp, "w") as fh:
         json.dump(res, fh)
